@@ -39,9 +39,10 @@ def default_inputs(seg):
     """named harness inputs (verif_in_*, verif_g*, plain harness locals) with the bit patterns printed by CBMC"""
     out = {}
     for ln in seg.split('\n'):
-        m = re.match(r'^\s*([A-Za-z_][A-Za-z0-9_]*)=(.*)$', ln)
+        m = re.match(r'^\s*([A-Za-z_][A-Za-z0-9_]*(?:\[\d+l?\])?)=(.*)$', ln)
         if not m: continue
         name, rhs = m.group(1), m.group(2)
+        name = re.sub(r'\[(\d+)l?\]', r'_\1', name)
         hv = hexval(rhs)
         if hv is None: continue
         if name.startswith('verif_in_') or name.startswith('verif_g') or name.startswith('in_'):
@@ -70,15 +71,20 @@ def write_violation(unit, job, p, res, trace_fn):
     rec = dict(property=unit.prop, job=job.id, job_kind=job.kind, obligation=p['name'], obligation_text=p['desc'],
                repo_file=p.get('file'), repo_line=p.get('line'), function=job.meta.get('function') or job.meta.get('functions'),
                unit_hashes={k: v[0] for k, v in unit.hashes.items() if v},
-               verifier_cmd=res.get('cmd'), verifier_output=seg[-20000:], inputs={}, native='not-run')
+               verifier_cmd=res.get('cmd'), verifier_output=seg[-20000:], native='not-run',
+               inputs={k: v for k, v in default_inputs(seg).items() if not k.startswith('first:')})
     adapters = getattr(unit.m, 'REPLAY', {})
     ad = adapters.get(job.id) or adapters.get(job.meta.get('cname'))
+    if ad is None:
+        for pat, a2 in adapters.items():
+            if pat.startswith('re:') and re.search(pat[3:], job.id):
+                ad = a2; break
     status = 'no-failing-input-found'
     if ad:
         try:
             inputs = default_inputs(seg)
             inputs = {k[6:] if k.startswith('first:') else k: v for k, v in inputs.items()}
-            inputs['fn'] = ad.get('fn', job.meta.get('cname', job.id))
+            inputs['fn'] = ad.get('fn') or job.meta.get('cname') or job.id
             rec['inputs'] = inputs
             rec['adapter'] = ad['adapter']
             ok, out = run_native(unit, ad['adapter'], inputs)
